@@ -180,7 +180,14 @@ fn compound(src: &mut Src, st: &mut Stats, _env: &Env) -> CaseResult {
     };
     // for pipes: often a left side that ENDS in a bare projection over mixed data
     let l = if kind == 0 && src.chance(90) {
-        match src.below(5) {
+        // partial functions: defined on some element types only, so a projection over mixed
+        // data fails at the first element outside the domain (wherever it is)
+        let partial = *src.pick(&["abs(@)", "length(@)", "keys(@)", "ceil(@)", "sort(@)", "max(@)", "starts_with(@, 'a')", "join(',', @)", "a.abs(@)", "not_null(a, @).length(@)", "reverse(@)", "values(@)", "sum(@)"]);
+        match src.below(9) {
+            5 => format!("({})[*].{}", l, partial),
+            6 => format!("({})[].{}", l, partial),
+            7 => format!("({})[?{}]", l, partial),
+            8 => format!("`[1, -2, \"x\", [3], null, {{\"a\": 1}}, 4]`[{}].{}", src.pick(&["*", "1:", "::2", "::-1"]), partial),
             0 => format!("({})[*]", l),
             1 => format!("({})[]", l),
             2 => format!("({})[1:]", l),
@@ -203,6 +210,12 @@ fn compound(src: &mut Src, st: &mut Stats, _env: &Env) -> CaseResult {
             // pipe; the right side is often a projection that calls a function on each element
             let r = if src.chance(80) {
                 src.pick(&[
+                    "[0]",
+                    "[1]",
+                    "[2]",
+                    "[-1]",
+                    "[0][0]",
+                    "[:1]",
                     "[*].type(@)",
                     "[*].not_null(@, 'x')",
                     "[?type(@) == 'null']",
@@ -592,7 +605,7 @@ pub fn property() -> Property {
         minimise: None,
         subs: vec![
             Sub::Custom(CustomSub { name: "scale", run: scale, replay: replay_scale }),
-            Sub::Bytes(BytesSub { name: "compound", f: compound, max_len: 1500, quick: Budget { threads: 8, cases: 6000 }, thorough: Budget { threads: 16, cases: 200_000 }, keep_unreproducible: false }),
+            Sub::Bytes(BytesSub { name: "compound", f: compound, max_len: 1500, quick: Budget { threads: 8, cases: 24000 }, thorough: Budget { threads: 16, cases: 200_000 }, keep_unreproducible: false }),
         ],
     }
 }
